@@ -148,6 +148,9 @@ type hop struct {
 	New   string `json:"new,omitempty"` // chpass: new password (possibly invalid)
 	Pw    string `json:"pw,omitempty"`  // unlockWrong: the password tried
 	Idx   int    `json:"idx,omitempty"` // legacy: account index (mod #accounts); -1 = the seed
+	// create/import: address format of the account: -1 node default, 0 btc, 1 btc multi-sign, 2 eth (every id that
+	// ProcCreateNewAccount / ProcImportPrivKey accept; ids >= 3 make address.PubKeyToAddr panic)
+	AddrID int32 `json:"addressID"`
 }
 
 type hcase struct {
@@ -186,18 +189,18 @@ func genKeyHex(t *rapid.T, signType string) string {
 }
 
 func genHistory(t *rapid.T) hcase {
-	c := hcase{SignType: rapid.SampledFrom([]string{"secp256k1", "ed25519"}).Draw(t, "signType")}
+	c := hcase{SignType: rapid.SampledFrom([]string{"secp256k1", "ed25519", "sm2"}).Draw(t, "signType")}
 	_, lang, ent := genMnemonic(t)
 	c.Lang, c.Entropy = lang, hex.EncodeToString(ent)
 	c.Pw0 = genWalletPassword(t, "pw0")
 	label := 0
 	add := func(imp bool) {
 		label++
+		o := hop{Op: "create", Label: fmt.Sprintf("acc%d", label), AddrID: rapid.SampledFrom([]int32{-1, 0, 1, 2, 2}).Draw(t, "addressID")}
 		if imp {
-			c.Ops = append(c.Ops, hop{Op: "import", Label: fmt.Sprintf("acc%d", label), Key: genKeyHex(t, c.SignType)})
-		} else {
-			c.Ops = append(c.Ops, hop{Op: "create", Label: fmt.Sprintf("acc%d", label)})
+			o.Op, o.Key = "import", genKeyHex(t, c.SignType)
 		}
+		c.Ops = append(c.Ops, o)
 	}
 	for i, n := 0, rapid.IntRange(1, 4).Draw(t, "initialAccounts"); i < n; i++ {
 		add(rapid.IntRange(0, 3).Draw(t, "imported") > 0) // seed derivation (pure-Go bip32) costs ~50 ms: mostly import
@@ -233,12 +236,14 @@ func genHistory(t *rapid.T) hcase {
 }
 
 type account struct {
-	addr string
-	key  string // hex with 0x, as ProcDumpPrivkey renders it
+	addr   string
+	key    string // hex with 0x, as ProcDumpPrivkey renders it
+	addrID int32
 }
 
 type histStats struct {
 	okChanges, failedChanges, accountsAtOkChange int
+	formatsAtOkChange                             map[int32]bool // address formats present at a successful change
 	legacyBeforeChange, coldChange               bool // cold = change attempted with no password held in memory (after restart)
 }
 
@@ -311,7 +316,7 @@ func runHistory(t lib.TB, c hcase) (st histStats) {
 		switch o.Op {
 		case "create":
 			unlocked(step)
-			wa, err := n.w.ProcCreateNewAccount(&types.ReqNewAccount{Label: o.Label})
+			wa, err := n.w.ProcCreateNewAccount(&types.ReqNewAccount{Label: o.Label, AddressID: o.AddrID})
 			if err != nil {
 				fail(step, "ProcCreateNewAccount: %v", err)
 			}
@@ -319,14 +324,14 @@ func runHistory(t lib.TB, c hcase) (st histStats) {
 			if err != nil {
 				fail(step, "ProcDumpPrivkey of a fresh account: %v", err)
 			}
-			accs = append(accs, account{wa.Acc.Addr, k})
+			accs = append(accs, account{wa.Acc.Addr, k, o.AddrID})
 		case "import":
 			unlocked(step)
-			wa, err := n.w.ProcImportPrivKey(&types.ReqWalletImportPrivkey{Privkey: o.Key, Label: o.Label})
+			wa, err := n.w.ProcImportPrivKey(&types.ReqWalletImportPrivkey{Privkey: o.Key, Label: o.Label, AddressID: o.AddrID})
 			if err != nil {
 				fail(step, "ProcImportPrivKey: %v", err)
 			}
-			accs = append(accs, account{wa.Acc.Addr, o.Key})
+			accs = append(accs, account{wa.Acc.Addr, o.Key, o.AddrID})
 		case "lock":
 			_ = n.w.ProcWalletLock()
 		case "unlock":
@@ -385,6 +390,12 @@ func runHistory(t lib.TB, c hcase) (st histStats) {
 				if len(accs) > st.accountsAtOkChange {
 					st.accountsAtOkChange = len(accs)
 				}
+				if st.formatsAtOkChange == nil {
+					st.formatsAtOkChange = map[int32]bool{}
+				}
+				for _, a := range accs {
+					st.formatsAtOkChange[a.addrID] = true
+				}
 				st.legacyBeforeChange = st.legacyBeforeChange || legacyPending
 				legacyPending = false
 			} else {
@@ -423,6 +434,12 @@ func TestPropWalletHistory(t *testing.T) {
 		}
 		if st.coldChange {
 			lib.Class("change_after_restart_without_unlock")
+		}
+		for id := range st.formatsAtOkChange {
+			lib.Class(fmt.Sprintf("successful_change_over_addressID_%d_account", id))
+		}
+		if (st.formatsAtOkChange[1] || st.formatsAtOkChange[2]) && (st.formatsAtOkChange[-1] || st.formatsAtOkChange[0]) {
+			lib.Class("successful_change_over_mixed_address_formats")
 		}
 		// non-trivial (DESIGN): a failed and a successful change, the successful one over >= 2 accounts
 		if st.okChanges > 0 && st.failedChanges > 0 && st.accountsAtOkChange >= 2 {
